@@ -339,6 +339,7 @@ def run(prog, ctx):
             else:
                 res.violate("C02.Q", "C02.Q|%s" % f.id, "probe loop in %s: stride %s is derived from a different table size than the mask %s" % (
                     f.id, show(pl["stride"]), show(pl["mask"])), f.id, pl["span"])
+    C.pairing_rule(res, prog, "C02.Q", "hll::aux_map::AuxMap", "entries", "count", 2)
     res.rule("C02.Q", n_q, 3, "open-addressing probe loops in hll::")
     res.rule("C02.Q2", check_set_probe(prog, res, "C02.Q2"), 1, "probe formula of the coupon hash set")
 
